@@ -1,8 +1,8 @@
 SPECIFICATION Spec
 CONSTANTS
   MaxDepth = 4
-  Bases = {"int", "char", "S", "unsigned long"}
-  Kinds = {"const", "ptr", "ref", "rref", "arr2", "arr3", "fn0", "fn1", "fn2", "mptr"}
+  Bases = {"int", "char", "S", "unsigned long", "Pair<ns::K, ns::V>", "Pair<int, Pair<ns::V, ns::K> >"}
+  Kinds = {"const", "ptr", "ref", "rref", "arr2", "arr3", "fn0", "fn1", "fn2", "cfn0", "cfn1", "mptr"}
 INVARIANT WellFormed
 INVARIANT DepthOK
 CONSTRAINT DumpConstraint
